@@ -20,7 +20,10 @@ import (
 	"github.com/containers/nri-plugins/pkg/kubernetes"
 	"github.com/containers/nri-plugins/pkg/utils/cpuset"
 	"github.com/containers/nri-plugins/pkg/verif/mc"
+	"github.com/containers/nri-plugins/pkg/verif/sysgen"
 )
+
+type sysgenCPU = sysgen.CPU
 
 const (
 	annNS            = "resource-policy.nri.io"
@@ -613,4 +616,249 @@ func drainC09(w *mc.Worker, s *scenario, dir string, trace []string, x *exec, po
 		v.add("zone-count", "zone-count", "%d zones after removing everything, %d right after configuration", len(end.Zones), len(ref.Zones))
 	}
 	return v.out
+}
+
+// ---------------------------------------------------------------------------
+// C02 (balloons)
+
+func (x *exec) blConfig() *cfgapi.BalloonsPolicy {
+	c, _ := x.scn.cfgs[x.w.cfgIdx].build().(*cfgapi.BalloonsPolicy)
+	return c
+}
+
+// scopeCPUs: the CPUs of all topology units of the given level that contain a CPU of cpus.
+func (x *exec) scopeCPUs(level string, cpus cpuset.CPUSet) cpuset.CPUSet {
+	m := x.scn.machine.Model()
+	unit := func(c *sysgenCPU) string {
+		switch level {
+		case "system":
+			return "sys"
+		case "package":
+			return fmt.Sprintf("p%d", c.Pkg)
+		case "die":
+			return fmt.Sprintf("p%dd%d", c.Pkg, c.Die)
+		case "numa":
+			return fmt.Sprintf("n%d", c.Node)
+		case "l2cache", "core":
+			return fmt.Sprintf("p%dc%d", c.Pkg, c.Core)
+		case "thread":
+			return fmt.Sprintf("t%d", c.ID)
+		}
+		return ""
+	}
+	units := map[string]bool{}
+	for i := range m.CPUs {
+		if cpus.Contains(m.CPUs[i].ID) {
+			units[unit(&m.CPUs[i])] = true
+		}
+	}
+	out := []int{}
+	for i := range m.CPUs {
+		if m.CPUs[i].Online && units[unit(&m.CPUs[i])] {
+			out = append(out, m.CPUs[i].ID)
+		}
+	}
+	return cpuset.New(out...)
+}
+
+// singleThread keeps the lowest CPU id of every physical core.
+func (x *exec) singleThread(cpus cpuset.CPUSet) cpuset.CPUSet {
+	m := x.scn.machine.Model()
+	seen := map[string]bool{}
+	out := []int{}
+	for _, id := range cpus.List() {
+		c := m.CPUs[id]
+		k := fmt.Sprintf("p%dc%d", c.Pkg, c.Core)
+		if !seen[k] {
+			seen[k] = true
+			out = append(out, id)
+		}
+	}
+	return cpuset.New(out...)
+}
+
+func oracleC02(x *exec, v *viols, pre, post *snap, rp *reply) {
+	if post.BL == nil {
+		return
+	}
+	cfg := x.blConfig()
+	avail := x.availableCPUs()
+	isolated := cpuset.New(x.scn.machine.Model().IsolatedCPUs()...)
+	blns := post.BL.Balloons
+	inBalloons := cpuset.New()
+	for i, a := range blns {
+		ac := parseSet(a.Cpus)
+		if out := ac.Difference(avail); !out.IsEmpty() {
+			v.add("balloon-outside-available", "balloon-outside-available", "balloon %s has CPUs %s outside the available set %s", a.Name, out, avail)
+		}
+		for _, b := range blns[i+1:] {
+			if common := ac.Intersection(parseSet(b.Cpus)); !common.IsEmpty() {
+				v.add("balloons-overlap", "balloons-overlap", "balloons %s and %s share CPUs %s", a.Name, b.Name, common)
+			}
+		}
+		inBalloons = inBalloons.Union(ac)
+	}
+	idle := avail.Difference(inBalloons)
+	// zones must tell the same story as the snapshot (public observable)
+	zone := map[string]zoneSnap{}
+	for _, z := range post.Zones {
+		zone[z.Name] = z
+	}
+	perDef := map[string]int{}
+	for _, b := range blns {
+		perDef[b.Def]++
+		bc, sh := parseSet(b.Cpus), parseSet(b.SharedIdle)
+		if z, ok := zone[b.Name]; !ok {
+			v.add("balloon-without-zone", "balloon-without-zone", "balloon %s is not advertised as a topology zone", b.Name)
+		} else if z.Attr["cpuset"] != b.Cpus || z.Attr["shared cpuset"] != b.SharedIdle {
+			v.add("zone-differs-from-balloon", "zone-differs-from-balloon", "zone %s advertises cpuset %q / shared %q, balloon has %q / %q", b.Name, z.Attr["cpuset"], z.Attr["shared cpuset"], b.Cpus, b.SharedIdle)
+		}
+		// shared idle CPUs
+		if bad := sh.Intersection(inBalloons); !bad.IsEmpty() {
+			v.add("shared-idle-in-balloon", "shared-idle-in-balloon", "balloon %s shares idle CPUs %s that belong to some balloon", b.Name, bad)
+		}
+		if bad := sh.Intersection(isolated); !bad.IsEmpty() {
+			v.add("shared-idle-isolated", "shared-idle-isolated", "balloon %s shares kernel-isolated CPUs %s", b.Name, bad)
+		}
+		if b.ShareIdle == "" {
+			if !sh.IsEmpty() {
+				v.add("shared-idle-unconfigured", "shared-idle-unconfigured", "balloon %s has shared idle CPUs %s although its type does not share idle CPUs", b.Name, sh)
+			}
+		} else {
+			want := idle.Difference(isolated).Intersection(x.scopeCPUs(b.ShareIdle, bc))
+			if missing := want.Difference(sh); !missing.IsEmpty() {
+				v.add("shared-idle-missing", "shared-idle-missing:"+strings.Split(rp.ev, ":")[0], "after %s balloon %s (cpus %s, shares idle CPUs in same %s) lacks idle CPUs %s in its shared set %s", rp.ev, b.Name, b.Cpus, b.ShareIdle, missing, sh)
+			}
+			if extra := sh.Difference(x.scopeCPUs(b.ShareIdle, bc)); !extra.IsEmpty() && !bc.IsEmpty() {
+				v.add("shared-idle-outside-scope", "shared-idle-outside-scope:"+strings.Split(rp.ev, ":")[0], "after %s balloon %s (cpus %s) shares idle CPUs %s outside its %s scope", rp.ev, b.Name, b.Cpus, extra, b.ShareIdle)
+			}
+		}
+		// limits
+		if b.CpuCount < b.MinCpus || (b.MaxCpus > 0 && b.CpuCount > b.MaxCpus) {
+			v.add("cpu-limits", "cpu-limits", "balloon %s has %d CPUs, type limits are min %d max %d", b.Name, b.CpuCount, b.MinCpus, b.MaxCpus)
+		}
+		if len(b.Containers) > 0 {
+			req := int64(0)
+			for _, id := range b.Containers {
+				if c := x.w.byID[id]; c != nil {
+					req += c.req.cpuReq
+				}
+			}
+			if b.CpuCount < 1 || int64(1000*b.CpuCount) < req {
+				if !(b.MaxCpus > 0 && b.CpuCount == b.MaxCpus) {
+					v.add("balloon-too-small", "balloon-too-small", "balloon %s has %d CPUs for containers %v requesting %dm", b.Name, b.CpuCount, b.Containers, req)
+				} else {
+					v.add("balloon-overfull", "balloon-overfull", "balloon %s is at its maxCPUs %d but its containers %v request %dm", b.Name, b.MaxCpus, b.Containers, req)
+				}
+			}
+		}
+	}
+	// instance limits per type
+	if cfg != nil {
+		seen := map[string]bool{}
+		for _, b := range blns {
+			if seen[b.Def] {
+				continue
+			}
+			seen[b.Def] = true
+			if perDef[b.Def] < b.MinBlns || (b.MaxBlns > 0 && perDef[b.Def] > b.MaxBlns) {
+				v.add("instance-limits", "instance-limits", "balloon type %s has %d instances, limits are min %d max %d", b.Def, perDef[b.Def], b.MinBlns, b.MaxBlns)
+			}
+		}
+		for _, d := range cfg.Spec.Config.BalloonDefs {
+			if d.MinBalloons > 0 && perDef[d.Name] < d.MinBalloons {
+				v.add("instance-limits", "instance-limits", "balloon type %s has %d instances, minBalloons is %d", d.Name, perDef[d.Name], d.MinBalloons)
+			}
+		}
+	}
+	// membership and pinning
+	pinCPU := cfg == nil || cfg.Spec.Config.PinCPU == nil || *cfg.Spec.Config.PinCPU
+	for _, c := range x.liveCtrs() {
+		if c.cpuPreserved() || x.preserveRuleMatches(c) {
+			continue
+		}
+		var home *int
+		n := 0
+		for i, b := range blns {
+			for _, id := range b.Containers {
+				if id == c.id() {
+					n++
+					j := i
+					home = &j
+				}
+			}
+		}
+		if n != 1 {
+			v.add("membership", fmt.Sprintf("membership:%d:%s", n, strings.Split(rp.ev, ":")[0]), "after %s live container %s belongs to %d balloons", rp.ev, c.id(), n)
+			continue
+		}
+		if !pinCPU {
+			continue
+		}
+		b := blns[*home]
+		want := parseSet(b.Cpus).Union(parseSet(b.SharedIdle))
+		hide := b.HideHT
+		if val, ok := c.effAnn(annHideHT); ok {
+			if h, err := strconv.ParseBool(val); err == nil {
+				hide = h
+			}
+		}
+		if hide {
+			want = x.singleThread(want)
+		}
+		cc := post.Cache[c.id()]
+		if got := parseSet(cc.Res.Cpus); !c08eq(got, want) {
+			v.add("container-cpus-cache", "container-cpus-cache:"+strings.Split(rp.ev, ":")[0], "after %s container %s in balloon %s (cpus %s shared %s hideHT %v): cached cpuset %q, expected %s", rp.ev, c.id(), b.Name, b.Cpus, b.SharedIdle, hide, cc.Res.Cpus, want)
+		}
+		if got := parseSet(c.told.Cpus); !c08eq(got, want) {
+			v.add("container-cpus-told", "container-cpus-told:"+strings.Split(rp.ev, ":")[0], "after %s container %s in balloon %s (cpus %s shared %s hideHT %v): runtime was told %q, expected %s", rp.ev, c.id(), b.Name, b.Cpus, b.SharedIdle, hide, c.told.Cpus, want)
+		}
+	}
+	// CPU classes
+	if cfg != nil {
+		want := map[string][]int{}
+		classOf := map[int]string{}
+		for _, id := range avail.List() {
+			classOf[id] = cfg.Spec.Config.IdleCpuClass
+		}
+		for _, b := range blns {
+			for _, id := range parseSet(b.Cpus).List() {
+				classOf[id] = b.CpuClass
+			}
+		}
+		for id, cl := range classOf {
+			want[cl] = append(want[cl], id)
+		}
+		got := map[int]string{}
+		for cl, ids := range post.CPUClass {
+			for _, id := range ids {
+				got[id] = cl
+			}
+		}
+		for _, id := range avail.List() {
+			if g, ok := got[id]; !ok || g != classOf[id] {
+				v.add("cpu-class", "cpu-class:"+strings.Split(rp.ev, ":")[0], "after %s CPU %d carries class %q (assigned: %v), expected %q", rp.ev, id, g, ok, classOf[id])
+				break
+			}
+		}
+	}
+}
+
+func c08eq(a, b cpuset.CPUSet) bool { return a.Size() == b.Size() && a.IsSubsetOf(b) }
+
+// preserveRuleMatches: reference evaluation of the balloons 'preserve' match rule (scenarios use only name-equality rules).
+func (x *exec) preserveRuleMatches(c *wctr) bool {
+	cfg := x.blConfig()
+	if cfg == nil || cfg.Spec.Config.Preserve == nil {
+		return false
+	}
+	for _, e := range cfg.Spec.Config.Preserve.MatchExpressions {
+		if e.Key == "name" && string(e.Op) == "Equals" && len(e.Values) == 1 && e.Values[0] == c.spec.name {
+			return true
+		}
+		if e.Key == "pod/name" && string(e.Op) == "Equals" && len(e.Values) == 1 && e.Values[0] == c.pod.spec.name {
+			return true
+		}
+	}
+	return false
 }
